@@ -205,6 +205,10 @@ impl TplLitType {
         for item in &self.0 {
             regex_exp.push_str(&item.regex_expr());
         }
+        if regex_exp.is_empty() {
+            // `//` starts a comment: the empty pattern is written `(?:)`
+            return "(?:)".to_string();
+        }
         regex_exp
     }
 }
